@@ -207,11 +207,45 @@ def edge_condition(role, truth):
     return ("true" if val else "false", r)
 
 
-def conditions_at(body, bb):
-    """normalised conditions of all switch edges dominating bb"""
+def flag_defs(body, sb):
+    """if the switch at block sb tests a boolean local that is only ever assigned the constants true / false
+    (`let mut ok = true; .. ok = false; ..`, `matches!(..)`, a lowered `&&`), return [(value, def)] — else None"""
+    t = body.blocks[sb]["term"]
+    pl = mir.op_place(t["discr"])
+    if pl is None or pl["p"]:
+        return None
+    l = pl["l"]
+    defs = body.defs()
+    for _ in range(6):
+        ds = defs.get(l, [])
+        if len(ds) == 1 and ds[0]["kind"] == "assign" and ds[0]["rv"]["k"] == "use" and ds[0]["rv"]["op"].get("k") in ("copy", "move") and not ds[0]["rv"]["op"]["pl"]["p"]:
+            l = ds[0]["rv"]["op"]["pl"]["l"]
+        else:
+            break
+    ds = defs.get(l, [])
+    if len(ds) < 2 or any(d["kind"] != "assign" for d in ds):
+        return None
+    vals = [(const_bool(d["rv"]), d) for d in ds]
+    if any(v is None for v, _ in vals):
+        return None
+    return vals
+
+
+def conditions_at(body, bb, _depth=0):
+    """normalised conditions of all switch edges dominating bb.  A test of a boolean flag that is assigned constants
+    only is looked through: if exactly one assignment gives the flag the value the edge needs, the conditions of that
+    assignment hold as well"""
     out = []
     for e, role, truth in body.guards_dominating(bb):
-        out.append((e, edge_condition(role, truth)))
+        cond = edge_condition(role, truth)
+        out.append((e, cond))
+        if _depth < 3 and cond[0] in ("true", "false") and len(cond) > 1 and isinstance(cond[1], tuple) and cond[1][0] == "phi":
+            fd = flag_defs(body, e[1])
+            if fd:
+                want = cond[0] == "true"
+                m = [d for v, d in fd if v == want]
+                if len(m) == 1:
+                    out.extend(conditions_at(body, m[0]["bb"], _depth + 1))
     return out
 
 
@@ -378,6 +412,14 @@ def iterator_loops(body):
             if some_e and sb in body.reach(some_e):
                 out.append((sb, inner[3][0], none_e, some_e, body.call_at.get(inner[4])))
     return out
+
+
+def loop_body(body, loop):
+    """blocks of the natural loop: reachable from the Some edge without taking the None edge, and able to get back to the
+    loop head (code reached through a `break` is not part of the body)"""
+    sb, it, none_e, some_e, cs = loop
+    fwd = body.reach(some_e, avoid=set(none_e))
+    return {x for x in fwd if isinstance(x, int) and sb in body.reach([x], avoid=set(none_e))}
 
 
 def loop_exhaustive(body, loop):
@@ -578,11 +620,13 @@ def loop_effects(body, lp):
     """calls inside the loop body that receive a `&mut` derived from a `&mut EGraph / EClass / Group` parameter of
     the enclosing function: the loop changes e-graph state"""
     sb, it, none_e, some_e, cs = lp
-    inside = body.reach(some_e, avoid=set(none_e))
+    inside = loop_body(body, lp)
     out = []
     for c in body.calls:
         if c.bb not in inside or body.blocks[c.bb]["cleanup"] or not c.callee or c is cs:
             continue
+        if c.callee.name in ("next", "next_back", "into_iter", "iter", "iter_mut", "peek", "by_ref", "size_hint", "clone", "deref", "deref_mut", "borrow", "as_ref"):
+            continue        # advancing / creating an iterator over e-graph data is not a change of the e-graph
         for a in c.args:
             pl = mir.op_place(a)
             if pl is None or not body.local_ty(pl["l"]).startswith("&mut"):
@@ -765,3 +809,40 @@ def is_forall_role(crate, role, pred_name, over=()):
         if ok and seen_true and seen_false:
             return True
     return False
+
+
+def is_forall_flag(crate, body, sb, pred_name, over=()):
+    """the switch at block sb tests a boolean flag that means `every element satisfies <pred_name>`:
+         let mut flag = true; for x in <over> { if !pred(x) { flag = false; break } }
+    Returns the truth value of the flag that stands for 'all satisfy' (True) or None."""
+    t = body.blocks[sb]["term"]
+    pl = mir.op_place(t["discr"])
+    if pl is None or pl["p"]:
+        return None
+    l = pl["l"]
+    defs = body.defs()
+    for _ in range(6):
+        ds = defs.get(l, [])
+        if len(ds) == 1 and ds[0]["kind"] == "assign" and ds[0]["rv"]["k"] == "use" and ds[0]["rv"]["op"].get("k") in ("copy", "move") and not ds[0]["rv"]["op"]["pl"]["p"]:
+            l = ds[0]["rv"]["op"]["pl"]["l"]
+        else:
+            break
+    ds = defs.get(l, [])
+    if not ds or any(d["kind"] != "assign" for d in ds):
+        return None
+    vals = [(const_bool(d["rv"]), d) for d in ds]
+    if any(v is None for v, _ in vals) or {v for v, _ in vals} != {True, False}:
+        return None
+    loops = [lp for lp in iterator_loops(body) if not over or any(mir.role_mentions_call(lp[1], o) for o in over)]
+    for lp in loops:
+        inside = loop_body(body, lp) | body.reach(lp[3], avoid=set(lp[2]))
+        ok = True
+        for v, d in vals:
+            if v is False:
+                conds = [c for e, c in conditions_at(body, d["bb"]) if c[0] == "false" and isinstance(strip_role(c[1]), tuple) and strip_role(c[1])[0] == "call" and strip_role(c[1])[1] == pred_name]
+                ok = ok and bool(conds) and d["bb"] in inside
+            else:
+                ok = ok and d["bb"] not in loop_body(body, lp)
+        if ok:
+            return True
+    return None
